@@ -146,6 +146,12 @@ def op_rtable(c):
 def op_run_games(c):
     import conditionalrewards as cr
     games = dec(c["games"])
+    if c.get("stale"):
+        # descriptions that already carry a 'prune_states' key (run_games itself leaves one behind in the caller's
+        # dictionaries, so a file's games run twice in one session have it): the batch must set the mode itself
+        for g, v in zip(games.values(), c["stale"]):
+            if isinstance(g, dict):
+                g["prune_states"] = v
     before = copy.deepcopy(games)
     try:
         with contextlib.redirect_stderr(io.StringIO()):
